@@ -207,13 +207,14 @@ class _CommonFile:
             key, value = parse(line, idx + 1)
 
             # NOTE: if multiple entries for a key, we use the first one,
-            #       which seems to match htpasswd source
+            #       which seems to match htpasswd source.
+            #       the later lines are dropped (not kept as skipped text),
+            #       otherwise they'd be written out again & resurrect deleted users.
             if key in records:
                 logging.warning(
                     "username occurs multiple times in source file: %r",
                     key,
                 )
-                skipped += line
                 continue
 
             # flush buffer of skipped whitespace lines
